@@ -330,3 +330,30 @@ def validate(chk, recs, label, max_report=8):
                 vf.log(f"    code  : {o}")
     return {"records": len(recs), "validated": len(events), "skipped": skipped, "drift": len(drift),
             "by_target": {t: sum(1 for e in events if e["inp"]["target"] == t) for t in ("fn", "mod", "trait", "impl")}}
+
+
+def model_check(chk, thorough=False):
+    """TLC on the bounded pipeline model (design-level invariants of the expansion's structure)"""
+    specdir = vf._spec_copy(chk.work)
+    if thorough:
+        import os
+        path = os.path.join(specdir, "MC_Expand.cfg")
+        with open(path) as f:
+            txt = f.read().replace("MaxFns = 1", "MaxFns = 2")
+        with open(path, "w") as f:
+            f.write(txt)
+    res = vf.run_tlc(chk.work, "MC_Expand", workers=8, timeout=1800, heap="8g")
+    if res["invariant_violated"]:
+        raise vf.ToolError(f"MC_Expand: the pipeline model violates one of its design invariants (see {res['log']})")
+    vf.need_ok(res, "MC_Expand")
+    chk.add_tlc(res, "MC_Expand")
+    chk.vacuity(res, ["ParseAttr", "GenerateItems", "RenderLines"])
+    return res
+
+
+def conformance(chk, recs, label):
+    """validate + bookkeeping in the check's evidence"""
+    st = validate(chk, recs, label)
+    chk.cov.setdefault("pipeline_model_conformance", {})[label] = st
+    chk.cov["drift"] += st["drift"]
+    return st
